@@ -29,7 +29,8 @@ def make_accel_case(spec, rnd):
 
 
 VARIANTS = ["generic", "occ-conv", "merger-static", "eager2", "part", "reread-m", "lf-shared",
-            "generic", "merger-dynamic", "alias-arch", "part", "lf-affine"]
+            "generic", "merger-dynamic", "alias-arch", "part", "lf-affine", "generic", "lf-take",
+            "generic", "generic"]
 
 
 def gen_item(pid, seed, shard, i, **kw):
